@@ -418,7 +418,7 @@ func buildArray(mem memory.Allocator, dt arrow.DataType, value any) (arrow.Array
 		if !ok {
 			return nil, fmt.Errorf("expected time.Time for TIMESTAMP, got %T", value)
 		}
-		b.Append(arrow.Timestamp(t.UTC().UnixMicro()))
+		b.Append(timeToTimestamp(t, ts.Unit))
 		return b.NewArray(), nil
 
 	case arrow.TIME64:
@@ -717,7 +717,11 @@ func appendToBuilder(b array.Builder, dt arrow.DataType, value any) error {
 		if !ok {
 			return fmt.Errorf("expected time.Time for TIMESTAMP, got %T", value)
 		}
-		b.(*array.TimestampBuilder).Append(arrow.Timestamp(t.UTC().UnixMicro()))
+		unit := arrow.Microsecond
+		if ts, isTS := dt.(*arrow.TimestampType); isTS {
+			unit = ts.Unit
+		}
+		b.(*array.TimestampBuilder).Append(timeToTimestamp(t, unit))
 	case arrow.TIME64:
 		t, ok := asTime(value)
 		if !ok {
@@ -906,3 +910,21 @@ func deserializeArrowSerializable(targetType reflect.Type, data []byte) (reflect
 }
 
 // Numeric conversion helpers
+
+// timeToTimestamp converts t to an Arrow timestamp value in the given unit —
+// the inverse of timestampToTime. The builders used to write microseconds
+// whatever unit the column declared, so a timestamp[ms] (or s / ns) field of
+// an ArrowSerializable type went out 1000x (1e6x / 1/1000x) off while the
+// decoder honoured the unit.
+func timeToTimestamp(t time.Time, unit arrow.TimeUnit) arrow.Timestamp {
+	switch unit {
+	case arrow.Second:
+		return arrow.Timestamp(t.Unix())
+	case arrow.Millisecond:
+		return arrow.Timestamp(t.UnixMilli())
+	case arrow.Nanosecond:
+		return arrow.Timestamp(t.UnixNano())
+	default:
+		return arrow.Timestamp(t.UnixMicro())
+	}
+}
